@@ -311,6 +311,8 @@ def run(ctx, repo):
     ctx.rule('R2', 'every table key has the same membership in PAT_RUN / PAT_EVENT_CODE / PAT_RELAYS on both sides; __codesmap '
                    'indices point at the groups the Python names denote; the _gnorms maps correspond')
     ctx.rule('R3', 'predicate / constant fingerprints of each ported pair agree modulo the frozen idiom allowlist')
+    ctx.rule('R6', 'the Tyrving and QuadKids formulas have the same symbolic normal form (exact piecewise polynomial, normalised conditions) '
+                   'in both languages, returns and conditional adjustments alike')
     ctx.rule('R5', 'no parseInt of a numeric-typed argument in the JavaScript sources (int() truncates, parseInt stringifies first)')
     ctx.rule('R4', 'language-independent rules on the twin: no default number-to-string notation reaches roundUpStrNum')
     # ---- R1
@@ -599,4 +601,35 @@ def run(ctx, repo):
     ctx.floor('parseInt calls typed', n_pi, 3)
     if not any(f.rule == 'R5' for f in ctx.findings):
         ctx.ok('R5', 'no parseInt is applied to a numeric-typed argument (%d calls typed)' % n_pi)
+
+    # ---- R6 the formulas of the scoring ports are the same piecewise polynomials (sa/symx.py): returns and conditional effects
+    from .. import symx
+    FORMULA_PAIRS = [('tyrving', 'TyrvingCalculator.race_points', 'racePoints'), ('tyrving', 'TyrvingCalculator.jump_points', 'jumpPoints'),
+                     ('tyrving', 'TyrvingCalculator.stav_points', 'stavPoints'), ('qkids', 'qkids_score', 'qkidsScore')]
+    n_forms = 0
+    for modk, pq, jq in FORMULA_PAIRS:
+        if jq not in jfun[modk]:
+            raise AnalysisError('anchor vanished: JS function %s' % jq)
+        pe, je = [], []
+        pr_ = symx.py_returns(pmods[modk].func(pq), pe)
+        jr_ = symx.js_returns(jfun[modk][jq], je)
+        pt, jt_ = [x[1] for x in pr_], [x[1] for x in jr_]
+        if None in pt or None in jt_:
+            why = [x[2] for x in pr_ + jr_ if x[1] is None]
+            if pq in ('TyrvingCalculator.points',):
+                ctx.info('%s: returns not arithmetic (%s); effects compared only' % (pq, why[0]))
+            else:
+                raise AnalysisError('%s / %s: a return is outside the symbolic fragment (%s)' % (pq, jq, why[0]))
+        n_forms += len(pt)
+        if pt != jt_:
+            ctx.finding('R6', '%s::%s::formula differs from the original' % (JS[modk], jq), JS[modk], jsast.line(jfun[modk][jq]),
+                        'the value returned by %s and by its port %s are different functions of the same quantities: Python %s; JavaScript %s'
+                        % (pq, jq, [t_ for t_ in pt if t_ not in jt_] or pt, [t_ for t_ in jt_ if t_ not in pt] or jt_), {'python': pt, 'javascript': jt_})
+        elif sorted(pe) != sorted(je):
+            ctx.finding('R6', '%s::%s::conditional adjustments differ from the original' % (JS[modk], jq), JS[modk], jsast.line(jfun[modk][jq]),
+                        'the adjustments made under a condition differ between %s and %s: only in Python %s; only in JavaScript %s'
+                        % (pq, jq, [e_ for e_ in pe if e_ not in je], [e_ for e_ in je if e_ not in pe]))
+        else:
+            ctx.ok('R6', '%s <-> %s: %d return form(s) and %d conditional effect(s) identical' % (pq, jq, len(pt), len(pe)))
+    ctx.floor('formula normal forms compared', n_forms, 4)
 
